@@ -192,7 +192,7 @@ class GeomMultiUnification(om.ExplicitComponent):
             # Fill non zero Jacobian entries with ones
             data = np.ones_like(rows)
 
-            if shift_uni_mesh:
+            if shift_uni_mesh and len(sections) > 1:
                 # Update sparsity pattern for any possible uni_mesh shifting/translating(i.e span scalar changes)
                 if i_sec == 0:
                     # Concatenate the unified mesh jacobian row up to and including the current section
@@ -262,7 +262,11 @@ class GeomMultiUnification(om.ExplicitComponent):
             mesh_name = "{}_def_mesh".format(name)
 
             if i_sec == 0:
-                uni_mesh = inputs[mesh_name][:, :-1, :]
+                if len(sections) == 1:
+                    # A single section is already the unified mesh
+                    uni_mesh = inputs[mesh_name]
+                else:
+                    uni_mesh = inputs[mesh_name][:, :-1, :]
             else:
                 if shift_uni_mesh:
                     # translate or shift uni_mesh (outer sections) to align leading edge at unification boundary
